@@ -238,6 +238,8 @@ type c19Case struct {
 	looks     map[string]string // where the handler looks at the current context from (c19Looks), by function name; absent = "subst"
 	inherit   string            // "" = the hook process finds no BINDING_CONTEXT_CURRENT_* in its environment (as under the operator); else a stale index it inherits
 	layout    string            // where the script loads the bundled library relative to its own function definitions (c19Layouts); "" = "first"
+	ctxFile   string            // non-empty: the binding-context file lives at <scratch>/<ctxFile> and stays there after the run (a later run of the same case reuses the path, as a second execution of the hook does)
+	exitTrap  bool              // the hook installs an EXIT trap of its own after loading the library (the temp-file idiom); bash keeps one EXIT trap per shell
 	env       []string          // NAME=value pairs the hook process inherits besides its own (the operator hands os.Environ() to every hook): c19EnvPool
 }
 
@@ -336,6 +338,13 @@ func c19Run(r *Run, c *Case, k c19Case, tag string) {
 	}
 	jb, _ := json.Marshal(arr)
 	ctxPath := filepath.Join(dir, "binding_context.json")
+	if k.ctxFile != "" {
+		ctxPath = filepath.Join(r.Scratch, k.ctxFile)
+		if a, err := filepath.Abs(ctxPath); err == nil {
+			ctxPath = a
+		}
+		c.Note("ctxfile:reused-path")
+	}
 	_ = os.WriteFile(ctxPath, jb, 0o644)
 	logPath := filepath.Join(dir, "log.txt")
 
@@ -415,6 +424,10 @@ function __verif_handler() {
 		sb.WriteString(strings.Join(pieces[:h], "") + loadLib + strings.Join(pieces[h:], ""))
 	default:
 		sb.WriteString(loadLib + strings.Join(pieces, ""))
+	}
+	if k.exitTrap {
+		sb.WriteString("trap 'rm -f \"$VERIF_DIR/hook-tmp.$$\"' EXIT\n")
+		c.Note("hook:own-exit-trap")
 	}
 	sb.WriteString(`if [[ "${VERIF_MODE:-}" == "cands" ]]; then
   n=$(context::global::jq -r 'length')
@@ -746,7 +759,7 @@ func runC19(r *Run) {
 	// a case runs bash up to three times (each bounded by 40 s and reported inconclusive on timeout):
 	// keep the per-case watchdog above that so a loaded machine never shows up as a `hang`
 	r.CaseTimeout = 150 * time.Second
-	r.Rule = "real bash runs of generated hook scripts that source the repository's shell_lib.sh + frameworks/shell/*.sh: (1) exhaustive single-context cases = every context kind (onStartup, Synchronization, Event Added/Modified/Deleted, Group, Schedule, Validating, Mutating, Conversion) x every subset of its documented candidates + __main__ (76 cases); (2) random arrays of 0..6 contexts of every kind incl. odd shapes (unknown type, no type, no binding, unknown watchEvent, onStartup with a type), random subsets of candidate functions plus decoy functions of other bindings/kinds, failures scripted by context index or handler name ending with return 3 / exit 2 / `false` under set -e, args none / --config / other; thorough adds all ordered pairs of kinds x {all specific handlers, only __main__, nothing for the first, nothing for the second} x failure at {none, first, second}. Every defined function also gets a place it looks at the current context from (its own shell: $(…), ( … ), a pipeline element, a background job; or a NEW PROGRAM: an executable helper script that sources the library again and calls context::jq or context::get, bash -c, the helper two execs deep, the helper started through env | xargs), and 15 % of the hooks are started with a stale BINDING_CONTEXT_CURRENT_* selection in their environment; corpus cases 8 (one function, helper script, three contexts) and 9 (one context per way of looking, last handler fails, with and without a stale inherited selection). Every hook also has a script layout (the bundled library loaded before the hook's own definitions / after them / before and a second time through a shared include / only through the include / between the definitions; block of every layout x {--config, dispatch, x --config, --config x}) and 35 % of the hooks inherit one to four variables from the operator's environment (LOG_LEVEL=debug|info|error|trace, LOG_TYPE, DEBUG*, SHELL_OPERATOR_*, KUBE_* ... and names the framework uses as plain shell variables: i, CONTEXT_LENGTH, HANDLERS, handler, handlers, f, frame, ret; a block runs every variable of the pool with an array of 2..5 contexts); corpus cases 10 (every layout: --config and a two-context dispatch) and 11 (LOG_LEVEL=debug with three / five contexts), 12 (thirteen contexts). A run that has logged more than 3n+12 invocations for n contexts is stopped and judged on its log (a dispatch loop that does not advance). Observation: (index, handler, context read through context::jq, and index / context / binding seen from where the handler looks) per invocation in order, config marker on stdout, exit status; plus the output of hook::_get_possible_handler_names per context. Non-trivial: at least one context and not --config; distinct = distinct op-line sequences."
+	r.Rule = "real bash runs of generated hook scripts that source the repository's shell_lib.sh + frameworks/shell/*.sh: (1) exhaustive single-context cases = every context kind (onStartup, Synchronization, Event Added/Modified/Deleted, Group, Schedule, Validating, Mutating, Conversion) x every subset of its documented candidates + __main__ (76 cases); (2) random arrays of 0..6 contexts of every kind incl. odd shapes (unknown type, no type, no binding, unknown watchEvent, onStartup with a type), random subsets of candidate functions plus decoy functions of other bindings/kinds, failures scripted by context index or handler name ending with return 3 / exit 2 / `false` under set -e, args none / --config / other; thorough adds all ordered pairs of kinds x {all specific handlers, only __main__, nothing for the first, nothing for the second} x failure at {none, first, second}. Every defined function also gets a place it looks at the current context from (its own shell: $(…), ( … ), a pipeline element, a background job; or a NEW PROGRAM: an executable helper script that sources the library again and calls context::jq or context::get, bash -c, the helper two execs deep, the helper started through env | xargs), and 15 % of the hooks are started with a stale BINDING_CONTEXT_CURRENT_* selection in their environment; corpus cases 8 (one function, helper script, three contexts) and 9 (one context per way of looking, last handler fails, with and without a stale inherited selection). Every hook also has a script layout (the bundled library loaded before the hook's own definitions / after them / before and a second time through a shared include / only through the include / between the definitions; block of every layout x {--config, dispatch, x --config, --config x}) and 35 % of the hooks inherit one to four variables from the operator's environment (LOG_LEVEL=debug|info|error|trace, LOG_TYPE, DEBUG*, SHELL_OPERATOR_*, KUBE_* ... and names the framework uses as plain shell variables: i, CONTEXT_LENGTH, HANDLERS, handler, handlers, f, frame, ret; a block runs every variable of the pool with an array of 2..5 contexts); corpus cases 10 (every layout: --config and a two-context dispatch) and 11 (LOG_LEVEL=debug with three / five contexts), 12 (thirteen contexts), 13 (second execution with the same binding-context path after a run of a hook that has its own EXIT trap; 10 % of the random arrays are preceded by such a run for another array). A run that has logged more than 3n+12 invocations for n contexts is stopped and judged on its log (a dispatch loop that does not advance). Observation: (index, handler, context read through context::jq, and index / context / binding seen from where the handler looks) per invocation in order, config marker on stdout, exit status; plus the output of hook::_get_possible_handler_names per context. Non-trivial: at least one context and not --config; distinct = distinct op-line sequences."
 	bindings := []string{"pods", "monitor-pods", "cfg.v1", "kubernetes", "schedule", "a_b", "main", "every*min", "x[1]", "what?"}
 	groups := []string{"g1", "grp-a", "pods"}
 
@@ -862,6 +875,14 @@ func runC19(r *Run) {
 		k.failIdx = []int{12}
 		k.failMode = "return3"
 		c19Run(r, c, k, "a")
+	})
+
+	r.One(13, func(c *Case, _ *Rng) {
+		c.Desc = "corpus: second execution — the hook (which installs its own EXIT trap, the temp-file idiom) runs for [Added pods], then again with the same binding-context path for [Deleted pods, Schedule cron]: the second run dispatches the second array"
+		c.Nontrivial = true
+		def := []string{"__on_kubernetes::pods::added", "__on_kubernetes::pods::deleted", "__on_schedule::cron"}
+		c19Run(r, c, c19Case{ctxs: []c19Ctx{c19Make("added", "pods", "")}, defined: def, failMode: "return3", exitTrap: true, ctxFile: "c19-13-ctx.json"}, "a")
+		c19Run(r, c, c19Case{ctxs: []c19Ctx{c19Make("deleted", "pods", ""), c19Make("schedule", "cron", "")}, defined: def, failMode: "return3", exitTrap: true, ctxFile: "c19-13-ctx.json"}, "b")
 	})
 
 	// (1c) script layouts x {--config, dispatch, `x --config`} and every variable of the environment pool x
@@ -1097,6 +1118,21 @@ func runC19(r *Run) {
 		}
 		c.Nontrivial = n >= 1 && !(len(k.args) == 1 && k.args[0] == "--config")
 		c.Note(fmt.Sprintf("len:%d", n))
+		if n >= 1 && rng.Chance(10) {
+			// second execution: the same hook ran before, for another array, with the same binding-context path
+			// (and has an EXIT trap of its own, so nothing the library would clean up at exit is cleaned)
+			k.ctxFile = fmt.Sprintf("c19-%d-ctx.json", c.Idx)
+			k.exitTrap = rng.Chance(70)
+			prev := k
+			prev.ctxs = nil
+			for i := len(k.ctxs) - 1; i >= 0; i-- {
+				prev.ctxs = append(prev.ctxs, k.ctxs[i])
+			}
+			prev.ctxs = append(prev.ctxs, c19Make("schedule", "main", ""))
+			prev.exitTrap = true
+			c.Note("prev-run:other-array-same-path")
+			c19Run(r, c, prev, "p")
+		}
 		c19Run(r, c, k, "a")
 	})
 
